@@ -35,7 +35,7 @@ REACH = [("yamlpath/common/searches.py", "search_matches", "Searches.search_matc
 EXHAUSTIVE_NOTE = "the operator x value-pool x term-pool grid (sizes in counters grid_cells)"
 SIZES = {"quick": dict(rnd=400000, part=60000), "thorough": dict(rnd=2500000, part=250000)}
 REQUIRED_COUNTERS = ["grid_cells", "grid_decided", "partition_checked", "anchor_twin_checked", "membership_checked", "typed_set_partitions", "set_membership_checked",
-                     "descendant_attr_partitions"]
+                     "descendant_attr_partitions", "attr_over_mixed_list_partitions"]
 
 OPS = {"=": PathSearchMethods.EQUALS, "^": PathSearchMethods.STARTS_WITH, "$": PathSearchMethods.ENDS_WITH,
        "%": PathSearchMethods.CONTAINS, ">": PathSearchMethods.GREATER_THAN, "<": PathSearchMethods.LESS_THAN,
@@ -260,6 +260,42 @@ def descendant_attr_case(ctx, rng):
             "summary": "children=%r plain=%r inverted=%r" % (list(data["things"].keys()), res[0], res[1])})
 
 
+def attr_over_mixed_list_case(ctx, rng):
+    """A LIST searched for an attribute of its elements (`/hosts[port OP t]`) when the list mixes Hashes - with and without
+    the attribute - with scalars and nulls: every element is a candidate, so the plain and the inverted search partition
+    the element indexes."""
+    els = []
+    for _ in range(rng.randrange(2, 7)):
+        els.append(rng.choice(["{port: %s}" % rng.choice(["80", "8080", "big", "2.5", "true", "null"]), "{name: x}", "{}", "null", "localhost", "8080",
+                               "true", "2.5", "{port: 80, name: y}", "''"]))
+    text = "{hosts: [%s], o: 1}" % ", ".join(els)
+    data = yp.load(text)
+    op = rng.choice(list(OPS))
+    term = rng.choice(REGEX_TERMS) if op == "=~" else rng.choice(["80", "8080", "big", "b", "2.5", "true", "7", "localhost"])
+    t = gp.render_term(op, term)
+    attr = rng.choice(["port", "port", "name"])
+    ctx.evaluations += 1
+    ctx.count("attr_over_mixed_list_partitions")
+    res = []
+    for inv in ("", "!"):
+        path = rng.choice(["/hosts[%s%s%s%s]", "hosts[%s%s%s%s]"]) % (attr, inv, op, t)
+        try:
+            res.append([n.parentref for n in Processor(LOG, data).get_nodes(path, mustexist=False)])
+        except YAMLPathException:
+            return
+        except Exception as e:
+            ctx.violation("partition-raises/%s" % type(e).__name__, {"case": {"doc": text, "attr": attr, "op": op, "term": term}, "summary": repr(e)[:150]})
+            return
+    ctx.counters["partition_checked"] = ctx.counters.get("partition_checked", 0) + 1
+    if res[0] and res[1]:
+        ctx.mark_nontrivial([text, attr, op, term])
+    n = len(data["hosts"])
+    if sorted(map(repr, res[0] + res[1])) != sorted(map(repr, range(n))):
+        ctx.violation("inversion-not-complement/attribute-over-mixed-list", {
+            "case": {"doc": text, "path": "/hosts", "attr": attr, "op": op, "term": term},
+            "summary": "elements=0..%d plain=%r inverted=%r" % (n - 1, res[0], res[1])})
+
+
 def collections(data):
     """(slash path text, container) for every list/hash/set reachable by plain keys/indexes."""
     out = []
@@ -334,7 +370,8 @@ def run_shard(ctx):
         if rng.random() < 0.1:
             typed_set_case(ctx, rng)
             descendant_attr_case(ctx, rng)
-            done += 2
+            attr_over_mixed_list_case(ctx, rng)
+            done += 3
         text = rng.choice(gd.HOSTILE) if rng.random() < 0.1 else gd.gen_doc(rng, rng.choice(["N", "U"]))[0]
         try:
             data = yp.load(text)
